@@ -118,6 +118,15 @@ func (w *World) guard(f func()) {
 func AllFeatures() features.FeatureSet { return features.DefaultFeatures }
 
 func NewWorld(t T, st *stats.Collector, o env.Options, focus ...string) *World {
+	if rt, ok := t.(*rapid.T); ok && o.ScriptCache == 0 {
+		// the compiled-script cache of the deployment: the service's default, a tiny one (evictions), or none
+		switch rapid.IntRange(0, 5).Draw(rt, "scriptCache") {
+		case 0:
+			o.ScriptCache = -1
+		case 1, 2:
+			o.ScriptCache = rapid.IntRange(1, 3).Draw(rt, "scriptCacheSize")
+		}
+	}
 	w := &World{T: t, Ctx: context.Background(), Env: env.New(o), St: st}
 	if len(focus) > 0 {
 		w.Focus = map[string]bool{}
